@@ -94,11 +94,17 @@ func runC15(s *kernel.Sim) {
 	statuses := []int{200, 200, 404, 500}
 	consumers := []string{"", "c1", "c2"}
 	interceptors := []string{"lunar-py-interceptor/1.0.0", "lunar-java-interceptor/2.1", "", "garbage"}
+	// two-level URLs (a second path parameter below the first): rare, or as
+	// common as the rest and spread over all users
+	deepW, deepUsers := 1, 2
+	if tp.Chance(1, 2) {
+		deepW, deepUsers = 4, nIDs
+	}
 	var recs []common.AccessLog
 	nonInternal := 0
 	for i := 0; i < n; i++ {
 		var url string
-		switch tp.Weighted([]int{5, 2, 2, 1}) {
+		switch tp.Weighted([]int{5, 2, 2, deepW}) {
 		case 0:
 			url = fmt.Sprintf("api.com/user/%d/posts", 100+tp.Choose(nIDs))
 		case 1:
@@ -106,7 +112,7 @@ func runC15(s *kernel.Sim) {
 		case 2:
 			url = []string{"api.com/static/a", "api.com/static/b", "other.io/v1/ping"}[tp.Choose(3)]
 		case 3:
-			url = fmt.Sprintf("api.com/user/%d/posts/%d/comments", 100+tp.Choose(2), tp.Choose(nIDs))
+			url = fmt.Sprintf("api.com/user/%d/posts/%d/comments", 100+tp.Choose(deepUsers), tp.Choose(nIDs))
 		}
 		dur := 1 + tp.Choose(1000)
 		r := common.AccessLog{
@@ -123,6 +129,10 @@ func runC15(s *kernel.Sim) {
 	nSplits := tp.Range(2, 4)
 	s.Knobs["records"], s.Knobs["threshold"], s.Knobs["ids"], s.Knobs["splits"] = n, threshold, nIDs, nSplits
 	s.MixSig(fmt.Sprint(threshold, recs))
+	if os.Getenv("VERIF_C15_DUMP") != "" { // debugging aid: the generated record stream
+		b, _ := json.Marshal(recs)
+		fmt.Fprintf(os.Stderr, "C15 records (threshold %d): %s\n", threshold, b)
+	}
 	dir := runTmp(s)
 
 	// (a) one batch
